@@ -27,3 +27,14 @@ cls('MessageListener', ecu=TRef('ElectronicControlUnit'), stopped=BOOL)
 # python-can message object (external class: only the attributes the listener reads)
 cls('CanMessage', is_error_frame=BOOL, is_remote_frame=BOOL, is_extended_id=BOOL, arbitration_id=INT,
     data=OCTETS, timestamp=REAL)
+
+# ---- J1939-21 data link layer
+cls('J1939_21',
+    _rcv_buffer=TTable(TRef('Rcv21')), _snd_buffer=TTable(TRef('Snd21')), _cas=TList(TRef('ControllerApplication')),
+    _minimum_tp_rts_cts_dt_interval=TOpt(REAL), _minimum_tp_bam_dt_interval=REAL, _max_cmdt_packets=INT,
+    _J1939_21__job_thread_wakeup=TFunc(), _J1939_21__send_message=TFunc(), _J1939_21__notify_subscribers=TFunc(),
+    _J1939_21__ecu_is_message_acceptable=TFunc(BOOL, True))
+rec('Snd21', pgn=INT, priority=INT, message_size=INT, num_packages=INT, data=TList(INT), state=INT, deadline=REAL,
+    src_address=INT, dest_address=INT, next_packet_to_send=INT, next_wait_on_cts=INT)
+rec('Rcv21', pgn=INT, message_size=INT, num_packages=INT, next_packet=INT, max_cmdt_packages=INT,
+    num_packages_max_rec=INT, data=TList(INT), deadline=REAL, src_address=INT, dest_address=INT)
